@@ -132,7 +132,14 @@ void own_test() {
   const int prefill = (int)opt("prefill", 0);
   // --opt rdom=k: utils::random() (the start slot inside a k-FIFO segment) is a recorded choice over [0,k); deviations from 0 are bounded by --r
   set_rand_domain((int)opt("rdom", 1));
-  hx::Program p = hx::choose_program(T, m, 2, T > 1);
+  hx::Program p;
+  if (opt("prog", -1) >= 0) { // --opt prog=<bits>: one fixed program, bit (t*m+i) set = operation i of thread t is a pop (targeted families)
+    p.T = T;
+    p.m = m;
+    for (int t = 0; t < T; t++)
+      for (int i = 0; i < m; i++) p.op[t][i] = (opt("prog", 0) >> (t * m + i)) & 1;
+  } else
+    p = hx::choose_program(T, m, 2, T > 1);
   int pushes = 0;
   for (int t = 0; t < T; t++)
     for (int i = 0; i < m; i++) pushes += p.op[t][i] == 0;
